@@ -68,6 +68,7 @@ func TestWorker(t *testing.T) {
 			sigs = []string{res.Sig}
 			out.Finding(id, res.Sig, res.Kind, res.Msg, c)
 		}
+		out.Trace(id, "", []any{sigs, c.Decoder, c.Delivery, len(c.Data), res.Err, res.Reader.Calls, res.Reader.Delivered(), res.Reader.Frags, res.Reader.ZeroReads, res.Reader.DataEOFs, res.Reader.ErrsFired}, nil)
 		out.End(id, sigs)
 		out.Count("evaluations", 1)
 		out.Count("sim_bytes", int64(res.Reader.Delivered()))
